@@ -161,12 +161,13 @@ def time_col(axis, log):
 class Model:
     """one symbolic run of compute() for a concrete choice of (mode, optical, radio, write_stages)"""
 
-    def __init__(self, mode="Diffuse", optical=True, radio=True, write_stages=False, spectrum="mono", cloud="none", fail_stage=None, fail_write=None):
+    def __init__(self, mode="Diffuse", optical=True, radio=True, write_stages=False, spectrum="mono", cloud="none", fail_stage=None, fail_write=None, output_file="OUT.fits"):
         from nuspacesim.config import NssConfig, Simulation, Detector
 
         self.mode, self.optical, self.radio, self.write_stages = mode, optical, radio, write_stages
         self.fail_stage = fail_stage  # name of a stage whose body raises (fault inside a stage)
         self.fail_write = fail_write  # ordinal of a table write that raises OSError (fault inside the writer)
+        self.output_file = output_file  # the path the caller names (any name is legal: the writer states format="fits" itself)
         sim = Simulation(mode=mode)
         if spectrum == "power":
             sim.spectrum = Simulation.PowerSpectrum()
@@ -202,7 +203,7 @@ class Model:
         ops_ = state["ops"]
 
         def _known(pth):
-            return isinstance(pth, str) and (pth in ghost_fs(ops_) or pth.endswith("OUT.fits"))
+            return isinstance(pth, str) and (pth in ghost_fs(ops_) or pth.endswith(self.output_file))
 
         def g_replace(interp, a, b, *x, **k):
             ops_.append(("replace", _os.fspath(a), _os.fspath(b)))
@@ -345,7 +346,7 @@ class Model:
             it.overrides = self.overrides(it, state)
             runs.append(dict(state))
             # write_stages=None: the argument is not passed at all (the default of compute() is part of its interface)
-            return C.compute, [cfg], dict({"output_file": "OUT.fits"}, **({} if self.write_stages is None else {"write_stages": self.write_stages}))
+            return C.compute, [cfg], dict({"output_file": self.output_file}, **({} if self.write_stages is None else {"write_stages": self.write_stages}))
 
         paths = it.explore(mk)
         for p, st in zip(paths, runs):
